@@ -450,6 +450,10 @@ fn run_case(w: &mut Worker, i: u64) -> CaseOut {
                             ),
                         }
                     }
+                    // (d) one case in four: the same written repository through the HTTP transport
+                    if i % 4 == 1 {
+                        http_leg(w, &spec, &wr, &dir, &mut out);
+                    }
                     // cross-party flow on one depth-1 role
                     if let Some(d) = spec.delegations.first() {
                         if !unmeetable && !dup_signers {
@@ -478,6 +482,113 @@ fn run_case(w: &mut Worker, i: u64) -> CaseOut {
     });
     w.cleanup(&dir);
     out
+}
+
+static HTTPD: std::sync::OnceLock<crate::httpd::Server> = std::sync::OnceLock::new();
+static HTTP_ID: std::sync::atomic::AtomicU64 = std::sync::atomic::AtomicU64::new(0);
+
+/// The written repository served by a plain static web server on the loopback interface (query string
+/// dropped, path percent-decoded, as nginx / S3 do) and loaded through tough's HTTP transport: it
+/// must load and every published target must download with its content. A failure is reported only
+/// if it repeats on a second attempt (loaded machine, wall-clock client timeouts).
+fn http_leg(w: &mut Worker, spec: &RepoSpec, wr: &Written, dir: &Path, out: &mut CaseOut) {
+    let wd = client::watchdog(w.cfg.tier);
+    let srv = HTTPD.get_or_init(crate::httpd::Server::start);
+    let id = HTTP_ID.fetch_add(1, std::sync::atomic::Ordering::Relaxed);
+    let pm = format!("/c10-{id}/metadata/");
+    let pt = format!("/c10-{id}/targets/");
+    srv.add_dir(&pm, &wr.md);
+    srv.add_dir(&pt, &wr.tg);
+    let transport = || {
+        tough::HttpTransportBuilder::new()
+            .tries(2)
+            .timeout(Duration::from_secs(10))
+            .connect_timeout(Duration::from_secs(5))
+            .initial_backoff(Duration::from_millis(1))
+            .max_backoff(Duration::from_millis(2))
+            .build()
+    };
+    let mut loaded = None;
+    let mut last_err = String::new();
+    for attempt in 0..2 {
+        let ds = dir.join(format!("ds-http-{attempt}"));
+        std::fs::create_dir_all(&ds).unwrap();
+        let root = wr.root_bytes.clone();
+        let l = tough::RepositoryLoader::new(&root, url::Url::parse(&srv.url(&pm)).unwrap(), url::Url::parse(&srv.url(&pt)).unwrap())
+            .transport(transport())
+            .datastore(&ds);
+        out.evals += 1;
+        match w.rt.block_on(async { tokio::time::timeout(wd, l.load()).await }) {
+            Err(_) => last_err = "watchdog".into(),
+            Ok(Err(e)) => last_err = client::full_error(&e),
+            Ok(Ok(r)) => {
+                loaded = Some(r);
+                if attempt == 1 {
+                    out.inconc("http-leg: load failure not reproduced on the second attempt");
+                }
+                break;
+            }
+        }
+    }
+    match loaded {
+        None if last_err == "watchdog" => out.inconc("watchdog"),
+        None => {
+            // the one cause that is a listed finding is named precisely; anything else stays "other"
+            let file = last_err.split("/metadata/").nth(1).map(|s| s.split([':', ' ', '\'']).next().unwrap_or("").to_string()).unwrap_or_default();
+            let cause = if file.contains('%') && last_err.contains("404") {
+                "percent-encoded-role-file-name-not-found"
+            } else {
+                "other"
+            };
+            out.viol(
+                format!("unloadable:transport=http:cause={cause}"),
+                format!("the written repository loads through file:// but not through HTTP: {last_err}"),
+            )
+        }
+        Some(repo) => {
+            out.h("http-leg:loaded");
+            for t in all_targets(spec) {
+                let class = name_class(&t.name);
+                let mut verdict: Option<(String, String)> = None;
+                for attempt in 0..2 {
+                    out.evals += 1;
+                    let rd = w.rt.block_on(read_all(&repo, &t.name, wd));
+                    let v = match rd {
+                        Ok(Some(b)) if b == t.content => None,
+                        Ok(Some(_)) => Some((format!("target-differs:class={class}:transport=http"), t.name.clone())),
+                        Ok(None) => Some((format!("target-not-listed:class={class}:transport=http"), t.name.clone())),
+                        Err(e) if e == "watchdog" => {
+                            out.inconc("watchdog");
+                            None
+                        }
+                        Err(e) => Some((
+                            format!("target-unfetchable:class={class}:transport=http"),
+                            format!("{:?} was published but cannot be downloaded over HTTP from the written repository: {e}", t.name),
+                        )),
+                    };
+                    match (v, attempt) {
+                        (None, 0) => {
+                            out.h(format!("http-leg:target-downloaded:class={class}"));
+                            break;
+                        }
+                        (None, _) => {
+                            out.inconc("http-leg: download failure not reproduced on the second attempt");
+                            verdict = None;
+                            break;
+                        }
+                        (Some(x), _) => verdict = Some(x),
+                    }
+                }
+                if let Some((sig, detail)) = verdict {
+                    out.viol(sig, detail);
+                }
+            }
+        }
+    }
+    let reqs = srv.remove_dir(&pm).len() + srv.remove_dir(&pt).len();
+    if reqs > 0 {
+        out.h("http-leg:requests-answered-by-the-static-server");
+    }
 }
 
 /// The role holder edits and signs its own role; the owner incorporates the incoming metadata.
